@@ -368,12 +368,117 @@ def desugar_let_chains(text, log, item_name):
     return text
 
 
+def _elim_continue_block(body, counter):
+    """body = text strictly between the braces of a block.  First top-level `if C { continue; }` (no else) or
+    `let P = E else { continue; };` is replaced by a guard around the remainder of the block (recursively)."""
+    m = mask(body)
+    depth = 0
+    k = 0
+    n = len(m)
+    while k < n:
+        ch = m[k]
+        if ch in "{([":
+            depth += 1
+        elif ch in "})]":
+            depth -= 1
+        elif depth == 0 and (k == 0 or not (m[k - 1].isalnum() or m[k - 1] in "_.")):
+            if m.startswith("if", k) and not (m[k + 2].isalnum() or m[k + 2] == "_") and not re.match(r"if\s+let\b", m[k:]):
+                # previous token must not be `else`
+                if re.search(r"\belse\s*$", m[:k]):
+                    k += 2
+                    continue
+                # condition up to the block brace at paren depth 0
+                d = 0
+                bo = None
+                for q in range(k + 2, n):
+                    c2 = m[q]
+                    if c2 in "([":
+                        d += 1
+                    elif c2 in ")]":
+                        d -= 1
+                    elif c2 == "{" and d == 0:
+                        bo = q
+                        break
+                    elif c2 == ";" and d == 0:
+                        break
+                if bo is not None:
+                    bc = match_brace(m, bo)
+                    inner = re.sub(r"//[^\n]*", "", body[bo + 1:bc]).strip()
+                    after = re.match(r"\s*else\b", m[bc + 1:])
+                    if inner == "continue;" and not after:
+                        cond = body[k + 2:bo].strip()
+                        rest = _elim_continue_block(body[bc + 1:], counter)
+                        counter[0] += 1
+                        return body[:k] + "if !(%s) {%s}\n" % (cond, rest.rstrip() + "\n")
+                    k = bc + 1
+                    continue
+            if m.startswith("let", k) and not (m[k + 3].isalnum() or m[k + 3] == "_"):
+                # let PAT = EXPR else { continue; };
+                d = 0
+                semi = None
+                else_pos = None
+                q = k + 3
+                while q < n:
+                    c2 = m[q]
+                    if c2 in "([{":
+                        if c2 == "{" and d == 0 and else_pos is not None and q >= else_pos:
+                            bc = match_brace(m, q)
+                            inner = re.sub(r"//[^\n]*", "", body[q + 1:bc]).strip()
+                            tail = re.match(r"\s*;", m[bc + 1:])
+                            if inner == "continue;" and tail:
+                                lhs = body[k + 3:else_pos].strip()
+                                rest = _elim_continue_block(body[bc + 1 + tail.end():], counter)
+                                counter[0] += 1
+                                return body[:k] + "if let %s {%s}\n" % (lhs, rest.rstrip() + "\n")
+                            break
+                        d += 1
+                    elif c2 in ")]}":
+                        d -= 1
+                        if d < 0:
+                            break
+                    elif c2 == ";" and d == 0:
+                        break
+                    elif d == 0 and m.startswith("else", q) and not (m[q - 1].isalnum() or m[q - 1] == "_") \
+                            and not (m[q + 4].isalnum() or m[q + 4] == "_"):
+                        else_pos = q
+                        q += 4
+                        continue
+                    q += 1
+        k += 1
+    return body
+
+
+def eliminate_continue(text, log, item_name):
+    """R18 (generic): inside every `for` loop of the fn, `if C { continue; } REST` -> `if !(C) { REST }` and
+    `let P = E else { continue; }; REST` -> `if let P = E { REST }` (REST = remainder of the enclosing block).
+    `continue` in `for` loops is outside the Verus subset; a `continue` left anywhere else makes the unit undecided."""
+    total = [0]
+    done = 0
+    while True:
+        st = fn_structure(text)
+        fors = [l for l in st["loops"] if st["masked"].startswith("for", l[0])]
+        if done >= len(fors):
+            break
+        kw, bo, bc = fors[done]
+        new_body = _elim_continue_block(text[bo + 1:bc], total)
+        text = text[:bo + 1] + new_body + text[bc:]
+        done += 1
+    if total[0]:
+        log.append(dict(item=item_name, rule="R18", before="if C { continue; } REST / let P = E else { continue; }; REST",
+                        after="if !(C) { REST } / if let P = E { REST }", times=total[0]))
+    return text
+
+
+
 def apply_edits(text, edits, log, item_name):
     """literal / regex rewrites with mandatory match counts"""
     for e in edits or []:
         rule = e.get("rule", "R?")
         if e.get("letchains"):
             text = desugar_let_chains(text, log, item_name)
+            continue
+        if e.get("elim_continue"):
+            text = eliminate_continue(text, log, item_name)
             continue
         count = e.get("count", 1)
         if "find" in e:
